@@ -1168,7 +1168,7 @@ def run(ctx: core.Context) -> int:
             + ') x PDU sequences of length 1-3 over payload lengths {0,1,kL-4+{-1,0,1}} in direction 0->1, 1->0 and duplex, plus large PDUs '
             'up to 65535 for each sender L; a case = one sequence, executed on two real stacks and checked at three observation points. '
             'iso: (M,N) x SDU sequences of length 1-3 over lengths at every fragment boundary +-1 on a CIS and a BIS link. '
-            'assembler: BFS to fixpoint over a 14(+4)-symbol fragment alphabet with 5 well-formed final PDUs at every state; a case = one transition or one final'
+            'assembler: BFS to fixpoint over a ' + ('14' if quick else '16') + '-symbol fragment alphabet (+4 symbols on a second connection for the host path) with 5 well-formed final PDUs fed at every reachable state; a case = one transition or one final'
         ),
         assumptions=[
             'message schedules: stock asyncio order only (no delivery-delay exploration in this property)',
